@@ -138,6 +138,7 @@ def _worker(modname, unit_index, tier, seed, q):
                     try:
                         eng2 = EN.Engine(timeout_ms=u.timeout_ms, max_paths=200, max_seconds=120)
                         eng2.fixed = dict(model)
+                        eng2.fixed_exact = dict((notes or {}).get('_exact') or {})     # solver values that binary64 cannot hold are pinned exactly
                         if u.setup:
                             u.setup()
                         res2 = eng2.run(u.fn)
